@@ -7,18 +7,42 @@ Definition cls_fn_char : list (N * N) := [(97, 122); (95, 95); (48, 57)]%N.
 
 (* what the lexer theorem asks of a query beyond well-typedness: member names and string literals are Unicode scalar values, every
    bracketed selection has a selector, function names are spelled as the lexer reads them, integer literals survive repr() and float(),
-   and there are no other number literals *)
+   and float literals print (repr) as a text of the FLOAT token's shape without leading zero that float() reads back as the same float *)
 Definition int_rt (z : Z) : bool :=
   negb (has_leading_zero (repr_int z)) &&
   match py_float (repr_int z) with
   | Some x => match py_int_of_float x with Some z' => z' =? z | None => false end
   | None => false
   end.
+(* the shape of a FLOAT token text:  -?digits.digits([eE][+-]?digits)?  |  -?digits[eE]-digits *)
+Definition is_eE (c : N) : bool := N.eqb c 101 || N.eqb c 69.
+Definition nonnil_ (l : list N) : bool := match l with [] => false | _ => true end.
+Definition isnil_ (l : list N) : bool := match l with [] => true | _ => false end.
+Definition float_formb (v : str) : bool :=
+  let s1 := match v with 45%N :: r => r | _ => v end in
+  let '(ip, s2) := take_digits s1 in
+  nonnil_ ip &&
+  match s2 with
+  | 46%N :: s3 =>
+      let '(fp, s4) := take_digits s3 in
+      nonnil_ fp &&
+      match s4 with
+      | [] => true
+      | e :: s5 => is_eE e && (let s6 := match s5 with 43%N :: r => r | 45%N :: r => r | _ => s5 end in
+                               let '(ed, s7) := take_digits s6 in nonnil_ ed && isnil_ s7)
+      end
+  | e :: 45%N :: s3 => is_eE e && (let '(ed, s4) := take_digits s3 in nonnil_ ed && isnil_ s4)
+  | _ => false
+  end.
+Definition flt_rt (n : num) : bool :=
+  let s := repr_float n in
+  float_formb s && negb (has_leading_zero s) && match py_float s with Some x => num_same x n | None => false end.
 Definition lx_lit (v : json) : bool :=
   match v with
   | JNull | JBool _ => true
   | JStr s => forallb is_scalar s
   | JNum (NInt z) => int_rt z
+  | JNum n => flt_rt n
   | _ => false
   end.
 Definition fname_okb (f : str) : bool :=
